@@ -884,13 +884,13 @@ def filter_literal(
             + "L" * (ty.bit_length > 32)
         )
         assert isinstance(out, str)
-        return out
+        return _most_negative_integer_literal(out)
 
     elif isinstance(ty, pydsdl.FloatType):
-        if value.denominator == 1:
-            expr = "{}.0".format(value.numerator)
-        else:
-            expr = "({}.0 / {}.0)".format(value.numerator, value.denominator)
+        # numerator.0 / denominator.0 while both are exactly representable (the quotient is then correctly rounded);
+        # see _float_literal_expression at the end of this module for the general case.
+        expr = _float_literal_expression(value)
+
         cast = filter_type_from_primitive(language, ty)
         return cast_format.format(type=cast, value=expr)
 
@@ -1100,3 +1100,32 @@ def filter_is_zero_cost_primitive(language: Language, t: pydsdl.PrimitiveType) -
 
     """
     return str(is_zero_cost_primitive(language, t))
+
+
+def _most_negative_integer_literal(literal: str) -> str:
+    """
+    There are no negative integer literals in C and C++: ``-9223372036854775808LL`` is the negation of a literal that
+    does not fit into any signed standard integer type, so the expression does not have the type ``long long``
+    (compilers diagnose it and fall back to an unsigned or an extended type). Render the limit the way <limits.h> does.
+    """
+    if literal == "-9223372036854775808LL":
+        return "(-9223372036854775807LL - 1)"
+    return literal
+
+
+def _float_literal_expression(value: fractions.Fraction) -> str:
+    """
+    An expression of type double whose value is ``value`` rounded to nearest. While numerator and denominator are
+    exactly representable in binary64 this is their quotient (IEEE 754 division is correctly rounded). Otherwise
+    the operands themselves would be rounded, or overflow to infinity (``1.0 / 1e320`` is zero although 1e-320 is a
+    representable subnormal), therefore the correctly rounded quotient is rendered as a decimal literal instead.
+    """
+
+    def is_exact(x: int) -> bool:
+        return abs(x) < 2**1023 and int(float(x)) == x
+
+    if is_exact(value.numerator) and is_exact(value.denominator):
+        if value.denominator == 1:
+            return "{}.0".format(value.numerator)
+        return "({}.0 / {}.0)".format(value.numerator, value.denominator)
+    return repr(value.numerator / value.denominator)
